@@ -5,6 +5,7 @@ package c13
 
 import (
 	"bytes"
+	"crypto/elliptic"
 	"fmt"
 	"math/big"
 	"testing"
@@ -24,7 +25,7 @@ var R = hx.NewRecorder("C13", "cases = (two long-term keys, two ephemeral keys, 
 var cv = rsm2.Std
 
 func TestMain(m *testing.M) {
-	R.Require("V_leading_zero", "eph_leading_zero", "id_empty", "klen%32!=0", "klen>32", "offcurve", "V_infinite", "id_too_long")
+	R.Require("V_leading_zero", "eph_leading_zero", "id_empty", "klen%32!=0", "klen>32", "offcurve", "V_infinite", "id_too_long", "V_infinite_own_t_zero", "offcurve_foreign_curve", "offcurve_foreign_b")
 	hx.Main(m, R)
 }
 
@@ -173,7 +174,7 @@ func TestC13_Hostile(t *testing.T) {
 	one := big.NewInt(1)
 	hx.Check(t, hx.N(500, 10000), func(t *rapid.T) {
 		c := drawKX(t)
-		kind := rapid.SampledFrom([]string{"x+1", "y^1", "zero", "ge_p", "random", "V_infinite", "id_too_long"}).Draw(t, "kind")
+		kind := rapid.SampledFrom([]string{"x+1", "y^1", "zero", "ge_p", "random", "V_infinite", "id_too_long", "t_zero", "foreign_curve", "foreign_b"}).Draw(t, "kind")
 		role := rapid.Bool().Draw(t, "victimIsA")
 		// victim's view of the peer's ephemeral public key
 		peer := c.rb.Pub
@@ -187,6 +188,7 @@ func TestC13_Hostile(t *testing.T) {
 		}
 		px, py := peerLong.Affine()
 		cls := "offcurve"
+		var foreign elliptic.Curve
 		ida, idb := c.ida, c.idb
 		switch kind {
 		case "x+1":
@@ -205,6 +207,51 @@ func TestC13_Hostile(t *testing.T) {
 			neg := cv.Neg(cv.Mul(peer, cv.XBar(peer.X)))
 			px, py = neg.Affine()
 			cls = "V_infinite"
+		case "t_zero":
+			// the victim's OWN long-term key happens to be d = -xbar(R_own)*r_own mod n: t = 0, so V = [h*t](P + [xbar]R) is the
+			// point at infinity although every value of the peer is honest (GM/T 0003.3 A7/B6: the exchange fails)
+			own, ownEph := &c.a, c.ra
+			if !role {
+				own, ownEph = &c.b, c.rb
+			}
+			d := new(big.Int).Mul(cv.XBar(ownEph.Pub.X), ownEph.D)
+			d.Neg(d).Mod(d, cv.N)
+			if d.Sign() == 0 || d.Cmp(new(big.Int).Sub(cv.N, one)) >= 0 {
+				R.Discard()
+				return
+			}
+			*own = gen.Key{D: d, Pub: cv.BaseMul(d)}
+			cls = "V_infinite_own_t_zero"
+		case "foreign_curve":
+			// the peer's ephemeral key object names another curve and lies on THAT one (the NIST P-256 base point or a
+			// multiple of it): not a point of the SM2 curve
+			nist := elliptic.P256()
+			k := gen.BigBelow(nist.Params().N).Draw(t, "nistk")
+			if k.Sign() == 0 {
+				k.SetInt64(1)
+			}
+			x, y = nist.ScalarBaseMult(k.Bytes())
+			foreign = nist
+			cls = "offcurve_foreign_curve"
+		case "foreign_b":
+			// ... or carries parameters that differ from SM2's only in b, with a point of that curve (invalid-curve point)
+			for try := int64(1); ; try++ {
+				x = new(big.Int).Add(gen.BigBelow(cv.P).Draw(t, "fx"), big.NewInt(try))
+				x.Mod(x, cv.P)
+				y = gen.BigBelow(cv.P).Draw(t, "fy")
+				// b' = y^2 - x^3 - a x
+				b2 := new(big.Int).Mul(y, y)
+				x3 := new(big.Int).Mul(x, x)
+				x3.Mul(x3, x)
+				b2.Sub(b2, x3).Sub(b2, new(big.Int).Mul(cv.A, x)).Mod(b2, cv.P)
+				if b2.Cmp(cv.B) != 0 {
+					pp := *sm2.P256Sm2().Params()
+					pp.B = b2
+					foreign = &pp
+					break
+				}
+			}
+			cls = "offcurve_foreign_b"
 		case "id_too_long":
 			if rapid.Bool().Draw(t, "which") {
 				ida = make([]byte, 8192)
@@ -217,7 +264,14 @@ func TestC13_Hostile(t *testing.T) {
 			R.Discard()
 			return
 		}
+		if foreign != nil && cv.OnCurve(x, y) {
+			R.Discard()
+			return
+		}
 		ep := &sm2.PublicKey{Curve: sm2.P256Sm2(), X: x, Y: y}
+		if foreign != nil {
+			ep.Curve = foreign
+		}
 		lp := &sm2.PublicKey{Curve: sm2.P256Sm2(), X: px, Y: py}
 		var k, s1, s2 []byte
 		var err error
